@@ -102,6 +102,23 @@ mod __verif_native_text {
                 }
             }
         }
+        // longer key lists: delete one or two keys anywhere in a list of 4..=8 keys, optionally re-add the first deleted one
+        for nkeys in 4..=8usize { for d1 in 0..nkeys { for d2 in 0..=nkeys { for readd in [false, true] {
+            if d2 == d1 { continue; }
+            let names: Vec<String> = (0..nkeys).map(|i| format!("K{}", i)).collect();
+            let mut t = TextArchive::new(TextArchiveFormat::Unicode, Endian::Little);
+            let mut model: Vec<(String, String)> = Vec::new();
+            for (i, k) in names.iter().enumerate() { t.set_message(k, &format!("v{}", i)); model.push((k.clone(), format!("v{}", i))); }
+            t.delete_message(&names[d1]); model.retain(|e| e.0 != names[d1]);
+            if d2 < nkeys { t.delete_message(&names[d2]); model.retain(|e| e.0 != names[d2]); }
+            if readd { t.set_message(&names[d1], "again"); model.push((names[d1].clone(), "again".to_string())); }
+            let got: Vec<(String, String)> = t.get_entries().iter().map(|(k, v)| (k.clone(), v.clone())).collect();
+            check(got == model, "C07.surviving_keys_in_first_insertion_order_with_last_value", || format!("{} keys, delete #{} then #{} (={} means none), re-add {}: {:?} want {:?}", nkeys, d1, d2, nkeys, readd, got, model));
+            // the order also survives serialize -> parse
+            if let Ok(bytes) = t.serialize() { if let Ok(r) = TextArchive::from_bytes(&bytes, TextArchiveFormat::Unicode, Endian::Little) {
+                let back: Vec<String> = r.get_entries().keys().cloned().collect();
+                check(back == model.iter().map(|e| e.0.clone()).collect::<Vec<_>>(), "C07.serialized_order_is_insertion_order", || format!("{:?}", back)); } }
+        } } } }
         finish("native_text");
     }
 }
